@@ -223,7 +223,24 @@ def verify_function(ctx, c, section, only_prop):
     if spec is None and c.mode != "post":
         section["errors"].append("spec function %s of %s missing in the sidecar" % (c.spec, c.qual))
         return
-    from .normalise import inline_aliases
+    from .normalise import inline_aliases, inline_generators
+
+    def _helper(fn):
+        """a helper of the module under verification that has no contract of its own (module function, or method of the current class)"""
+        if isinstance(fn, ast.Name) and fn.id not in ctx.contracts:
+            g, _ = ctx.extract(sc.module, fn.id)
+            return (g, False) if isinstance(g, ast.FunctionDef) else None
+        if isinstance(fn, ast.Attribute) and isinstance(fn.value, ast.Name) and ctx.cur_class and fn.attr not in ctx.contracts \
+                and fn.value.id in ("self", ctx.cur_class):
+            g, _ = ctx.extract(sc.module, ctx.cur_class + "." + fn.attr)
+            if isinstance(g, ast.FunctionDef):
+                decos = [ast.unparse(d) for d in g.decorator_list]
+                if all(d == "staticmethod" for d in decos):
+                    return (g, not decos and fn.value.id == "self")
+        return None
+    gnotes = []
+    real = inline_generators(real, _helper, gnotes)
+    section["notes"].extend("%s: %s" % (c.name, n) for n in gnotes)
     real, anotes = inline_aliases(real)
     if spec is not None:
         spec, _ = inline_aliases(spec)
